@@ -47,18 +47,30 @@ func fragmentingFileNamer() fileNamer {
 
 func fragmentFileName(key string) string {
 	encoded := base64.RawURLEncoding.EncodeToString([]byte(key))
+	if encoded == "" {
+		// The empty key: an empty file name cannot be opened.
+		return dirMarker
+	}
 	if len(encoded) <= 255 { // Common filesystem filename limit
 		return encoded
 	}
 
-	// Fragment the encoded string
+	// Fragment the encoded string. Directory components carry a marker that
+	// is not part of the base64url alphabet, so that the file of one key can
+	// never be the directory of another (e.g. a key and its own extension,
+	// or a 36-byte key and a longer key starting with it).
 	var parts []string
-	for i := 0; i < len(encoded); i += fragmentSize {
-		end := min(i+fragmentSize, len(encoded))
-		parts = append(parts, encoded[i:end])
+	for len(encoded) > fragmentSize {
+		parts = append(parts, dirMarker+encoded[:fragmentSize-len(dirMarker)])
+		encoded = encoded[fragmentSize-len(dirMarker):]
 	}
+	parts = append(parts, encoded)
 	return filepath.Join(parts...)
 }
+
+// dirMarker prefixes the directory components of fragmented file names; on
+// its own it is the file name of the empty key.
+const dirMarker = "+"
 
 func fragmentingFileNameKeyer() fileNameKeyer {
 	return fileNameKeyerFunc(fragmentedFileNameToKey)
@@ -70,10 +82,14 @@ var filepathSeparatorReplacer = strings.NewReplacer(
 )
 
 func fragmentedFileNameToKey(name string) (string, error) {
+	if name == dirMarker {
+		return "", nil // the empty key
+	}
 	// Check if the name contains path separators (i.e., is fragmented)
 	if strings.ContainsRune(name, filepath.Separator) {
 		// Handle fragmented path
 		base64Str := filepathSeparatorReplacer.Replace(name)
+		base64Str = strings.ReplaceAll(base64Str, dirMarker, "")
 		decoded, err := base64.RawURLEncoding.DecodeString(base64Str)
 		if err != nil {
 			return "", err
